@@ -331,3 +331,127 @@ pub fn coldstart_other(kind: &str, threads: usize, seed: u64, stack_kib: usize) 
         10
     }
 }
+
+/// "Few keys, many threads": rounds in which `threads` threads, released together, issue the SAME handful of
+/// requests over and over (each thread in its own random order) and compare every result with what one thread
+/// computed for that request before the round. A process-wide cache / memo that is updated without proper
+/// synchronisation only shows when several callers look up and publish the same and colliding keys at once;
+/// independent random inputs per thread never produce that. `flavour` selects the request mix: "ngd" = nearest-good-
+/// day fallbacks near the edge of the no-twilight period (short searches), anything else = all policies.
+/// Exit 0 = all equal, 10 = a result differed (detail on stdout). Prints counters as JSON on stdout either way.
+pub fn hammer(flavour: &str, threads: usize, seed: u64, millis: u64) -> i32 {
+    use std::sync::atomic::{AtomicBool, AtomicU64, AtomicUsize, Ordering::SeqCst};
+    let t_end = Instant::now() + std::time::Duration::from_millis(millis);
+    let mut r = Rng::new(seed, 779, 0);
+    let mut failures: Vec<String> = vec![];
+    let (mut rounds, mut total_calls) = (0u64, 0u64);
+    let ngd = ["NearestGoodDayFajrIshaInvalid", "NearestGoodDayAllPrayersAlways"];
+    while Instant::now() < t_end && failures.is_empty() {
+        rounds += 1;
+        // ---- the round's request set
+        let k = r.int(2, 7) as usize;
+        let mut reqs: Vec<(Params, Location, chrono::NaiveDate, Option<Weather>)> = vec![];
+        let mut tries = 0;
+        while reqs.len() < k && tries < 400 {
+            tries += 1;
+            let want_ngd = flavour == "ngd" || r.chance(0.5);
+            let sgn = r.sign();
+            let la = if want_ngd { r.range(48.6, 64.0) * sgn } else { r.range(-66.0, 66.0) };
+            let lon = r.range(-180.0, 180.0);
+            let l = loc(la, lon, if r.chance(0.5) { 0.0 } else { r.range(0.0, 2000.0) }, (lon / 15.0).round().clamp(-12.0, 12.0));
+            let y = r.int(1600, 2399) as i32;
+            let mut ps = PSpec::new(*r.pick(&ANGLE_METHODS));
+            let pol = if want_ngd { *r.pick(&ngd) } else { *r.pick(&POLICIES) };
+            ps = ps.with_policy(pol, if is_nearest_lat(pol) { Some(r.range(-48.0, 48.0)) } else { None });
+            ps.mode = r.int(0, 3) as usize;
+            let p = ps.build();
+            let d = if want_ngd {
+                // a day near the edge of the no-twilight period: walk from spring towards the solstice until Fajr or Isha goes missing
+                let mut p0 = p.clone();
+                p0.extreme_latitude_method = ExtremeLatitudeMethod::None;
+                let (m0, d0) = if la > 0.0 { (3, 25) } else { (9, 25) };
+                let mut dd = ymd(y, m0, d0);
+                let mut found = None;
+                for _ in 0..100 {
+                    let res = prayer_times_dt(&p0, l, dd, None);
+                    if res[&Prayer::Fajr].is_err() || res[&Prayer::Isha].is_err() {
+                        found = Some(dd);
+                        break;
+                    }
+                    dd = from_ce(ce(dd) + 1);
+                }
+                match found {
+                    Some(x) => from_ce(ce(x) + r.int(0, 12) as i32),
+                    None => continue,
+                }
+            } else {
+                rand_date(&mut r)
+            };
+            let w = if r.chance(0.2) { Some(weather(r.range(100.0, 1050.0), r.range(-90.0, 57.0))) } else { None };
+            reqs.push((p, l, d, w));
+            if want_ngd && r.chance(0.6) && reqs.len() < k {
+                // a sibling request: same place, a neighbouring day (different search distance, nearby key)
+                let (p, l, d, w) = reqs.last().unwrap().clone();
+                reqs.push((p, l, from_ce(ce(d) + r.int(1, 5) as i32), w));
+            }
+        }
+        if reqs.len() < 2 {
+            continue;
+        }
+        // ---- reference: one thread, before the round
+        let expected: Vec<Option<Res>> = reqs.iter().map(|(p, l, d, w)| super::guarded(|| prayer_times_dt(p, *l, *d, *w)).ok()).collect();
+        // ---- the round
+        let arrived = AtomicUsize::new(0);
+        let stop = AtomicBool::new(false);
+        let calls = AtomicU64::new(0);
+        let iters = 400usize;
+        let bad: std::sync::Mutex<Vec<String>> = std::sync::Mutex::new(vec![]);
+        std::thread::scope(|s| {
+            for t in 0..threads {
+                let (reqs, expected, arrived, stop, calls, bad) = (&reqs, &expected, &arrived, &stop, &calls, &bad);
+                let mut tr = Rng::new(seed, 780 + rounds, t as u64);
+                s.spawn(move || {
+                    arrived.fetch_add(1, SeqCst);
+                    while arrived.load(SeqCst) < threads {
+                        std::hint::spin_loop();
+                    }
+                    for _ in 0..iters {
+                        if stop.load(SeqCst) {
+                            break;
+                        }
+                        let i = (tr.next() % reqs.len() as u64) as usize;
+                        let (p, l, d, w) = &reqs[i];
+                        let got = super::guarded(|| prayer_times_dt(p, *l, *d, *w)).ok();
+                        calls.fetch_add(1, SeqCst);
+                        if got != expected[i] {
+                            stop.store(true, SeqCst);
+                            bad.lock().unwrap().push(format!(
+                                "request {l:?} {d} policy {:?} mode {:?}: one thread alone computed {} ; with {threads} threads issuing the same {} requests at once a caller got {}",
+                                p.extreme_latitude_method,
+                                p.round_seconds,
+                                expected[i].as_ref().map(|x| res_json(x).to_string()).unwrap_or("panic".into()),
+                                reqs.len(),
+                                got.as_ref().map(|x| res_json(x).to_string()).unwrap_or("panic".into())
+                            ));
+                        }
+                    }
+                });
+            }
+        });
+        total_calls += calls.load(SeqCst);
+        failures.extend(bad.into_inner().unwrap());
+        // ---- and afterwards, one thread again
+        for (i, (p, l, d, w)) in reqs.iter().enumerate() {
+            let again = super::guarded(|| prayer_times_dt(p, *l, *d, *w)).ok();
+            if again != expected[i] {
+                failures.push(format!("request {l:?} {d}: result after the concurrent round differs from the result before it"));
+            }
+        }
+    }
+    println!("{}", serde_json::json!({"rounds": rounds, "calls": total_calls, "threads": threads, "failures": failures}));
+    if failures.is_empty() {
+        0
+    } else {
+        10
+    }
+}
